@@ -3,19 +3,84 @@ From Coq Require Import String Lia.
 From PX.Lib Require Import Base PyStr.
 From PX.Model Require Import Path Segment Errh ErrIter OutW Html.
 From PX.Spec Require Import C19_spec.
+From PX.Proofs Require Import C19_lemmas.
 
 Local Definition l (s : string) : str := list_ascii_of_string s.
 
+Lemma concat_one (x : str) : concat [x] = x.
+Proof. apply app_nil_r. Qed.
+
 (* escape_html_chars never produces a character that opens or closes a tag, whatever the value *)
 Theorem esc_no_angle : forall v, forallb (fun c => negb (Ascii.eqb c "<"%char || Ascii.eqb c ">"%char)) (esc v) = true.
-Admitted.
+Proof.
+  induction v as [|c v IH]; [reflexivity|].
+  rewrite esc_cons, forallb_app, IH, esc_one_no_angle. reflexivity.
+Qed.
 
 (* ... and a tag stripper gives the value back, in any context *)
 Theorem strip_esc : forall v rest, strip false (esc v ++ rest) = v ++ strip false rest.
-Admitted.
+Proof. intros v rest. apply (proj1 (chunk_esc v)). Qed.
 
 Theorem tags_esc : forall v rest, tags_of None (esc v ++ rest) = tags_of None rest.
-Admitted.
+Proof.
+  induction v as [|c v IH]; intros rest; [reflexivity|].
+  rewrite esc_cons, <- app_assoc.
+  assert (H : forall r, tags_of None (esc [c] ++ r) = tags_of None r).
+  { intros r. rewrite esc_one. unfold esc1.
+    destruct (Ascii.eqb_spec c "&"%char) as [->|N1]; [reflexivity|].
+    destruct (Ascii.eqb_spec c " "%char) as [->|N2]; [reflexivity|].
+    destruct (Ascii.eqb_spec c ">"%char) as [->|N3]; [reflexivity|].
+    destruct (Ascii.eqb_spec c "<"%char) as [->|N4]; [reflexivity|].
+    apply tags_other. exact N4. }
+  rewrite H. apply IH.
+Qed.
+
+
+(* the whole output of a completed gen_seg call is one chunk *)
+Lemma gen_seg_chunk h x line nodes info st' writes :
+    codes_plain h (sid (xs_s x)) nodes ->
+    html_gen_seg (cfg_of (xs_d x)) h x (Some line) nodes {| loop_info := option_map esc info |} = (st', writes, Ok tt) ->
+    chunk (concat writes) (plain_gen_seg h x line info nodes) /\ loop_info st' = None.
+Proof.
+  intros CP H. unfold html_gen_seg in H. cbv zeta in H.
+  apply w_bind_inv in H as (s1 & o1 & m & o2 & H1 & H & ->). apply w_lift_inv in H1 as (-> & -> & Em).
+  apply w_bind_inv in H as (s1 & o1 & t_seg & o3 & H1 & H & ->). apply w_lift_inv in H1 as (-> & -> & Et).
+  apply w_bind_inv in H as (s1 & o1 & [] & o4 & H1 & H & ->).
+  assert (P1 := wspec_iter (write_pre_errors h (sid (xs_s x)))
+                  (fun r => concat (map plain_seg_err (filter is3 (node_errors h (sid (xs_s x)) r)))) nodes
+                  (fun r Hr => wspec_pre h _ r (proj1 (CP r Hr))) _ _ _ H1).
+  destruct P1 as [-> C1].
+  apply w_bind_inv in H as (s2 & o5 & st & o6 & H2 & H & ->). unfold w_get in H2. injection H2 as <- <- <-.
+  apply w_bind_inv in H as (s2 & o5 & [] & o7 & H2 & H & ->).
+  assert (C2 : s2 = {| loop_info := option_map esc info |} /\ chunk (concat o5) (plain_info info)).
+  { cbn [loop_info] in H2. destruct info as [[|c r]|]; cbn [option_map] in H2.
+    - rewrite esc_nil in H2. injection H2 as <- <-. split; [reflexivity | apply chunk_nil].
+    - destruct (esc (c :: r)) as [|ch rest] eqn:Ee; [exfalso; eapply esc_nonempty; eauto|].
+      unfold gen_info, w_write in H2. apply pair_equal_spec in H2 as [H2 _]. apply pair_equal_spec in H2 as [<- <-]. split; [cbn [option_map]; rewrite Ee; reflexivity|]. rewrite concat_one.
+      rewrite <- Ee. unfold plain_info.
+      apply chunk_app; [chunk_const [l "<span class=""info"">"]|]. apply chunk_app; [apply chunk_esc|].
+      apply (chunk_app _ [] _ NL); [chunk_const [l "</span>"; l "<br />"] | apply chunk_NL].
+    - injection H2 as <- <-. split; [reflexivity | apply chunk_nil]. }
+  destruct C2 as [-> C2].
+  apply w_bind_inv in H as (s3 & o8 & [] & o9 & H3 & H & ->). unfold w_put in H3. injection H3 as <- <-.
+  apply w_bind_inv in H as (s4 & o10 & body & o11 & H4 & H & ->). apply w_lift_inv in H4 as (-> & -> & Eb).
+  apply w_bind_inv in H as (s5 & o12 & ln & o13 & H5 & H & ->). apply w_lift_inv in H5 as (-> & -> & El).
+  cbn [fmt_i] in El. injection El as <-.
+  apply w_bind_inv in H as (s6 & o14 & [] & o15 & H6 & H & ->). unfold w_write in H6. apply pair_equal_spec in H6 as [H6 _]. apply pair_equal_spec in H6 as [<- <-].
+  assert (P2 := wspec_iter (write_post_errors h (sid (xs_s x))) (plain_post_node h (sid (xs_s x))) nodes
+                  (fun r Hr => wspec_post h _ r (proj1 (CP r Hr)) (proj2 (CP r Hr))) _ _ _ H).
+  destruct P2 as [-> C3].
+  split; [|reflexivity].
+  cbn [app]. rewrite !concat_app. cbn [concat app]. unfold plain_gen_seg. cbv zeta.
+  apply chunk_app; [exact C1|]. apply chunk_app; [exact C2|].
+  rewrite <- !app_assoc.
+  apply (chunk_app _ []); [chunk_const [l "<span class=""seg"">"]|].
+  apply chunk_app; [apply chunk_free, fmt_Zi_free|].
+  apply chunk_app; [chunk_const (@nil str)|].
+  apply chunk_app; [apply (seg_line_chunk x m t_seg body Et Eb)|].
+  apply (chunk_app _ [] _ (NL ++ plain_post h (sid (xs_s x)) nodes)); [chunk_const [l "</span>"; l "<br />"]|].
+  apply (chunk_app NLs NL (concat o15) (plain_post h (sid (xs_s x)) nodes)); [apply chunk_NL | exact C3].
+Qed.
 
 (* one gen_seg call that completes: what a tag stripper leaves is exactly the pre-errors, the loop heading,
    the line number with the segment as the source has it, and the other errors; all tags are the report's own *)
@@ -24,20 +89,32 @@ Theorem gen_seg_strip :
     codes_plain h (sid (xs_s x)) nodes ->
     html_gen_seg (cfg_of (xs_d x)) h x (Some line) nodes {| loop_info := option_map esc info |} = (st', writes, Ok tt) ->
     strip_markup (concat writes) = plain_gen_seg h x line info nodes /\ loop_info st' = None.
-Admitted.
+Proof.
+  intros h x line nodes info st' writes CP H.
+  destruct (gen_seg_chunk h x line nodes info st' writes CP H) as [C E].
+  split; [apply chunk_strip; exact C | exact E].
+Qed.
 
 Theorem gen_seg_tags :
   forall h x line nodes info st' writes,
     codes_plain h (sid (xs_s x)) nodes ->
     html_gen_seg (cfg_of (xs_d x)) h x (Some line) nodes {| loop_info := option_map esc info |} = (st', writes, Ok tt) ->
     forall t, In t (tags (concat writes)) -> In t report_tags.
-Admitted.
+Proof.
+  intros h x line nodes info st' writes CP H.
+  destruct (gen_seg_chunk h x line nodes info st' writes CP H) as [C _].
+  exact (chunk_tags _ _ C).
+Qed.
 
 (* the heading stored by loop() is always an escaped string *)
 Theorem loop_info_escaped :
   forall st i n t, (exists info, loop_info st = option_map esc info) ->
                    exists info, loop_info (html_loop st i n t) = option_map esc info.
-Admitted.
+Proof.
+  intros st i n t H. unfold html_loop.
+  destruct (opt_eqb str_eqb t (Some (Html.l "wrapper"))); [exact H|].
+  eexists (Some _). reflexivity.
+Qed.
 
 (* footer: the trailing envelope errors, then the fixed closing text *)
 Definition plain_footer_part {A} (cur : option nat) (heap : list A) (closed : A -> bool) (errors : A -> list err2) (code : string) : str :=
@@ -49,6 +126,17 @@ Definition plain_footer_part {A} (cur : option nat) (heap : list A) (closed : A 
               end
   end.
 
+Lemma footer_part_spec {A} (cur : option nat) (heap : list A) (closed : A -> bool) (errors : A -> list err2) (code : string) :
+  markup_free (l code) = true ->
+  wspec (footer_part cur heap closed errors code) (plain_footer_part cur heap closed errors code).
+Proof.
+  intros F. unfold footer_part, plain_footer_part. destruct cur as [i|]; [|apply wspec_ret].
+  apply wspec_lift. intros n E. unfold heap_nth in E. destruct (nth_error heap i) as [n'|]; [|discriminate E].
+  injection E as ->. destruct (closed n); [apply wspec_ret|].
+  apply (wspec_iter_filter (fun e : err2 => str_eqb (fst e) (l code)) (fun e => seg_err_line (snd e) (fst e)) plain_seg_err).
+  intros e _ He. apply chunk_seg_err. apply str_eqb_eq in He. rewrite He. exact F.
+Qed.
+
 Theorem footer_strip :
   forall h writes,
     html_footer h tt = (tt, writes, Ok tt) ->
@@ -58,7 +146,24 @@ Theorem footer_strip :
       plain_footer_part (c_isa h) (h_isa h) isa_is_closed in_errors "023" ++
       NL ++ NL ++ l "pyx12 Validator" ++ NL ++ NL ++ NL ++ NL
     /\ (forall t, In t (tags (concat writes)) -> In t report_tags).
-Admitted.
+Proof.
+  intros h writes H.
+  assert (W : wspec (html_footer h)
+                (plain_footer_part (c_st h) (h_st h) st_is_closed tn_errors "2" ++
+                 plain_footer_part (c_gs h) (h_gs h) gs_is_closed gn_errors "3" ++
+                 plain_footer_part (c_isa h) (h_isa h) isa_is_closed in_errors "023" ++
+                 NL ++ NL ++ l "pyx12 Validator" ++ NL ++ NL ++ NL ++ NL)).
+  { unfold html_footer.
+    apply wspec_seq; [apply footer_part_spec; reflexivity|].
+    apply wspec_seq; [apply footer_part_spec; reflexivity|].
+    apply wspec_seq; [apply footer_part_spec; reflexivity|].
+    apply (wspec_seq _ _ NL); [apply wspec_write; chunk_const [l "</div>"]|].
+    apply (wspec_seq _ _ (NL ++ l "pyx12 Validator" ++ NL ++ NL));
+      [apply wspec_write; chunk_const [l "<p>"; l "<a href=""http://sourceforge.net/projects/pyx12/"">"; l "</a>"; l "</p>"]|].
+    apply wspec_write. chunk_const [l "</body>"; l "</html>"]. }
+  destruct (W tt tt writes H) as [_ C].
+  split; [apply chunk_strip; exact C | exact (chunk_tags _ _ C)].
+Qed.
 
 (* non-vacuity: a segment with markup characters in its values, with '<' as element separator *)
 Example gen_seg_example :
